@@ -62,5 +62,11 @@ add("C19",
     "Bounded symbolic model checking of the read-back path with a symbolic value (code points are solver variables) in "
     "each condition/action slot, and exhaustive pools for multi-condition filters, disabled and reloaded sets.",
     "DESIGN.md 3/C19", "CrossHair symbolic execution (z3) of addfilter/args_as_tuple/to_list with symbolic string values; pool enumeration for reload")
-for _p in ("C05", "C06", "C08", "C09", "C10", "C14", "C15", "C16", "C17"):
+add("C06",
+    "Bounded symbolic model checking: every documented condition/action kind and set-operation scenario by symbolic "
+    "index (output accepted by the real parser, strictly valid for the reference grammar, leading require covers every "
+    "extension used), and a value of symbolic code points in each value slot whose rendering must be exactly the RFC "
+    "5228 quoted form inside the unchanged skeleton.",
+    "DESIGN.md 3/C06", "CrossHair symbolic execution (z3) of FiltersSet + Command.tosieve with symbolic string values; reference grammar on the output")
+for _p in ("C05", "C08", "C09", "C10", "C14", "C15", "C16", "C17"):
     NOT_APPLICABLE[_p] = "check under construction in this session (see DESIGN.md section 3); not yet claimed"
